@@ -33,6 +33,19 @@ def include_hash():
         _inc_hash = h.hexdigest()
     return _inc_hash
 
+_src_hash = None
+def source_tree_hash():
+    """hash of every file under /repo/source: harness units may #include repository .cc files (surface.cc, main.cc, model sources)"""
+    global _src_hash
+    if _src_hash is None:
+        h = hashlib.sha256()
+        for d, _, fs in sorted(os.walk(os.path.join(REPO, 'source'))):
+            for f in sorted(fs):
+                if f.endswith(('.cc', '.h', '.hpp')):
+                    p = os.path.join(d, f); h.update(p.encode()); h.update(open(p, 'rb').read())
+        _src_hash = h.hexdigest()
+    return _src_hash
+
 def config_dir():
     d = os.path.join(CACHE, 'config-' + sha(open(os.path.join(REPO, 'include/world_builder/config.h.in'), 'rb').read(), open(os.path.join(REPO, 'VERSION'), 'rb').read()))
     out = os.path.join(d, 'world_builder', 'config.h')
@@ -63,7 +76,7 @@ def compile_ll(tu, extra=()):
     if not os.path.exists(src): raise BuildError('missing source ' + src)
     harness = src.startswith(VERIF)
     flags = CLANG_FLAGS + list(extra) + (['-fno-access-control'] if harness else [])
-    key = sha(open(src, 'rb').read(), include_hash(), ' '.join(flags), src, 'v3')
+    key = sha(open(src, 'rb').read(), include_hash(), source_tree_hash() if harness else '', ' '.join(flags), src, 'v4')
     out = os.path.join(CACHE, 'll', key + '.ll')
     if not os.path.exists(out):
         os.makedirs(os.path.dirname(out), exist_ok=True)
@@ -95,7 +108,7 @@ def compile_obj(tu, extra=()):
     flags = GXX_FLAGS + list(extra) + (['-DSYM_NATIVE', '-fno-access-control'] if harness else [])
     cc = 'clang++-14' if harness else 'g++'     # -fno-access-control is a clang flag; repo sources use the project's compiler
     if harness: flags = [f for f in flags if f != '-w'] + ['-Wno-everything']
-    key = sha(open(src, 'rb').read(), include_hash(), ' '.join(flags), src, cc, 'v3')
+    key = sha(open(src, 'rb').read(), include_hash(), source_tree_hash() if harness else '', ' '.join(flags), src, cc, 'v4')
     out = os.path.join(CACHE, 'obj', key + '.o')
     if not os.path.exists(out):
         os.makedirs(os.path.dirname(out), exist_ok=True)
